@@ -21,6 +21,24 @@ type Config struct {
 	// RootOff != 0: the queue header lives at this byte offset of the root page (Delegate.Root returns a page id
 	// AND an offset); a second queue (the neighbour, 2 events) keeps its header at offset 0 of the same page
 	RootOff uintptr `json:",omitempty"`
+	// WALLimit != 0: the queue's write / cleanup transactions use this overwrite-page limit instead of the standalone
+	// delegate's 3 (an application may embed the queue with its own transaction options): with 1 or 2 the automatic
+	// checkpoint runs inside the commits that rewrite the queue header
+	WALLimit uint `json:",omitempty"`
+}
+
+// limitDelegate is a delegate whose transactions use their own overwrite-page limit.
+type limitDelegate struct {
+	pq.Delegate
+	file  *txfile.File
+	limit uint
+}
+
+func (d *limitDelegate) BeginWrite() (*txfile.Tx, error) {
+	return d.file.BeginWith(txfile.TxOptions{WALLimit: d.limit})
+}
+func (d *limitDelegate) BeginCleanup() (*txfile.Tx, error) {
+	return d.file.BeginWith(txfile.TxOptions{EnableOverflowArea: true, WALLimit: d.limit})
 }
 
 // offsetDelegate is a standalone delegate whose queue header sits at a byte offset of the root page.
@@ -95,6 +113,9 @@ func (e *Engine) offsetQueue(base pq.Delegate) (pq.Delegate, error) {
 }
 
 func (c Config) String() string {
+	if c.WALLimit != 0 {
+		return fmt.Sprintf("ps=%d max=%d wbuf=%d rootoff=%d wallimit=%d", c.PageSize, c.MaxSize, c.WriteBuffer, c.RootOff, c.WALLimit)
+	}
 	if c.RootOff != 0 {
 		return fmt.Sprintf("ps=%d max=%d wbuf=%d rootoff=%d", c.PageSize, c.MaxSize, c.WriteBuffer, c.RootOff)
 	}
@@ -227,6 +248,9 @@ func (e *Engine) attach() error {
 		if del, err = e.offsetQueue(del); err != nil {
 			return err
 		}
+	}
+	if e.Cfg.WALLimit != 0 {
+		del = &limitDelegate{Delegate: del, file: e.File, limit: e.Cfg.WALLimit}
 	}
 	q, err := pq.New(del, pq.Settings{
 		WriteBuffer: e.Cfg.WriteBuffer,
